@@ -192,12 +192,13 @@ Definition run_fetch (fs : list bytes) : bytes :=
   let specs0 := map parse_spec specs in
   let specs := if bytes_eqb tags (bs "a")
                then specs0 ++ [mkSpec false (bs "refs/tags/*") (bs "refs/tags/*")] else specs0 in
-  (* protocol v2: ls-refs only lists what matches a ref-prefix derived from the refspecs *)
+  (* protocol v2: ls-refs only lists what matches a ref-prefix derived from the refspecs (none: everything) *)
+  let prefixes := flat_map (fun sp => expand_prefixes (sp_src sp)) specs in
   let prefix_ok (n : bytes) :=
-    existsb (fun sp => match strip_prefix (match glob_prefix (sp_src sp) with Some p => p | None => sp_src sp end) n with
-                       | Some _ => true | None => false end) specs in
+    existsb (fun p => match strip_prefix p n with Some _ => true | None => false end) prefixes in
   let adv0 := adv_of o v2 srefs in
-  let adv := if v2 then filter (fun r => prefix_ok (rname r)) adv0 else adv0 in
+  let adv := if v2 && negb (match prefixes with [] => true | _ => false end)
+             then filter (fun r => prefix_ok (rname r)) adv0 else adv0 in
   let ms := match_specs specs 0 adv [] in
   let wants := flat_map (fun m => match rid (mp_remote m) with Some i => [i] | None => [] end) ms in
   let todo := direct_ids lrefs ++ wants in
